@@ -93,9 +93,16 @@ class ResultInterp(Interp):
 
     def apply(self, fv, args, kwargs, node):
         if isinstance(fv, _StrMethod):
+            def plain(a):
+                return isinstance(a, (str, int)) or (isinstance(a, (list, tuple)) and all(isinstance(x, str) for x in a))
+
             try:
-                if all(isinstance(a, (str, int)) for a in args):
-                    return getattr(fv.s, fv.name)(*args)
+                if all(plain(a) for a in args) and all(plain(v) for v in kwargs.values()) and fv.name in _STR_METHODS:
+                    return getattr(fv.s, fv.name)(*args, **kwargs)
+            except (ValueError, IndexError) as e:
+                from ..absval import RaiseSignal
+
+                raise RaiseSignal(type(e).__name__, node)
             except Exception:
                 pass
             return Unknown("strmethod")
@@ -117,6 +124,8 @@ class ResultInterp(Interp):
         return Unknown(f"{name}(...)")
 
     def compare_hook(self, op, l, r, node):
+        if isinstance(l, Tagged) and isinstance(r, Tagged) and isinstance(op, (ast.Eq, ast.NotEq)) and l.name == r.name == "hash":
+            return (l == r) if isinstance(op, ast.Eq) else not (l == r)
         return Unknown(f"cmp {norm(node) if isinstance(node, ast.AST) else ''}")
 
     def binop_hook(self, op, l, r, node):
@@ -124,6 +133,8 @@ class ResultInterp(Interp):
             return Tagged("binop:" + type(op).__name__, [l, r])
         return super().binop_hook(op, l, r, node)
 
+
+_STR_METHODS = {"join", "split", "rsplit", "partition", "rpartition", "lower", "upper", "strip", "lstrip", "rstrip", "startswith", "endswith", "replace", "isdigit", "isnumeric", "isdecimal", "isalpha", "find", "rfind", "index", "count", "format", "title", "removeprefix", "removesuffix", "splitlines", "zfill", "casefold"}
 
 REDUCER_FUNCS = {
     "numpy.average", "numpy.mean", "numpy.std", "numpy.sum", "numpy.min", "numpy.max", "numpy.amin", "numpy.amax", "numpy.nanmean",
